@@ -1309,6 +1309,15 @@ class ConnectionBase(object):
             self.stats.dropped += 1
             return False
 
+        if not self.session_key_bytes:
+            # without a key the packet was not authenticated. the only thing
+            # that can be received before a key exists is the single
+            # hello message of the handshake
+            expected = PacketType.CLIENT_HELLO if self.isServer else PacketType.SERVER_HELLO
+            if len(pkt.msgs) != 1 or pkt.msgs[0].type != expected:
+                self.stats.dropped += 1
+                return False
+
         try:
             # TODO: log warning for packet flooding
             # if inserting dropped unacked bits then those packets will time out
